@@ -59,18 +59,26 @@ Proof. exact faulty_cannot_block. Qed.
 Print Assumptions C05_f_faulty_cannot_block.
 
 (* Multi-root duties (sync-committee contribution: every message carries one share per root).  The
-   same liveness clause, for every decided object: *)
-Definition C05_multi_root_liveness_statement : Prop :=
+   same liveness clause, for every decided object, for the runner without ([false]) / with ([true])
+   the repair of finding P3 ([fix_multi], read from the source on every run): *)
+Definition C05_multi_root_liveness_statement (repaired : bool) : Prop :=
   forall g hist k,
+    fix_multi g = repaired ->
     NoDup (expected g) -> 1 <= quorum g -> bn_always_ok hist = true ->
     live_at g hist k = true.
 
-(* It does not hold for the code as modelled (DESIGN 5.2, P3): n = 4, two roots, member 4 sends a
-   wrong share for the first root only; after the correct messages of 1, 2, 3 only the first
-   object has been submitted and the duty is finished. *)
-Theorem C05_multi_root_liveness_refuted : ~ C05_multi_root_liveness_statement.
+(* Unrepaired it does not hold (DESIGN 5.2, P3): n = 4, two roots, member 4 sends a wrong share for
+   the first root only; after the correct messages of 1, 2, 3 only the first object has been
+   submitted and the duty is finished. *)
+Theorem C05_multi_root_liveness_refuted : ~ C05_multi_root_liveness_statement false.
 Proof. exact multi_root_liveness_refuted. Qed.
 Print Assumptions C05_multi_root_liveness_refuted.
+
+(* Repaired (the loop goes on after a failed reconstruction, Finished only when every root has its
+   quorum) it holds for any number of roots, any committee, any traffic. *)
+Theorem C05_multi_root_liveness_repaired : C05_multi_root_liveness_statement true.
+Proof. exact multi_root_liveness_repaired. Qed.
+Print Assumptions C05_multi_root_liveness_repaired.
 
 (* The two failing shapes, evaluated. *)
 Example C05_P3_witness :
@@ -89,13 +97,23 @@ Example C05_early_finish_witness :
   /\ live_at cfg4_2roots early_finish_witness 5 = false.
 Proof. vm_compute. repeat split. Qed.
 
+(* the same two histories on the repaired runner: both objects are submitted *)
+Example C05_witnesses_repaired :
+  map (fun o => map sub_root (o_subs o)) (snd (run cfg4_2roots_repaired init_state p3_witness))
+    = [ []; []; [1%N]; [0%N] ]
+  /\ map (fun o => map sub_root (o_subs o)) (snd (run cfg4_2roots_repaired init_state early_finish_witness))
+    = [ []; []; []; [0%N]; [1%N] ]
+  /\ finished (fst (run cfg4_2roots_repaired init_state p3_witness)) = true
+  /\ finished (fst (run cfg4_2roots_repaired init_state early_finish_witness)) = true.
+Proof. vm_compute. repeat split. Qed.
+
 (* ---- non-vacuity: committees of 4, 7, 10, 13 ------------------------------------------------- *)
 
 Fixpoint ids (n : nat) : list N :=
   match n with O => [] | S k => ids k ++ [N.of_nat (S k)] end.
 
 Definition cfg_n (f : nat) : cfg :=
-  {| committee := ids (3 * f + 1); quorum := 2 * f + 1; duty_slot := 12%N; expected := [7%N] |}.
+  {| committee := ids (3 * f + 1); quorum := 2 * f + 1; duty_slot := 12%N; expected := [7%N]; fix_multi := false |}.
 
 Definition msg1 (s slot root : N) (x : share) : input :=
   ({| s_signer := s; s_slot := slot;
